@@ -3,6 +3,9 @@ macro_rules! registry {
     ($action:ident, $id:expr, $ctx:expr, $path:expr) => {
         match $id {
             "C01" => dispatch!($action, props::c01::C01, $ctx, $path),
+            "C22" => dispatch!($action, props::c22::C22, $ctx, $path),
+            "C23" => dispatch!($action, props::c23::C23, $ctx, $path),
+            "C34" => dispatch!($action, props::c34::C34, $ctx, $path),
             _ => {
                 eprintln!("unknown property {}", $id);
                 2
